@@ -20,6 +20,9 @@ type LockCfg struct {
 	HeldBy           map[string]int
 	FreshCtors       []string // short func keys whose result is a fresh object
 	MinFuncs         int      // floor: functions with direct accesses confirmed by hand
+	ElemHeldBy       map[string]int // short func key -> slice argument whose elements' locks the wrapper leaves held
+	AltHeld          func(fn *ssa.Function, instr ssa.Instruction) bool
+	SubGuard         func(addr ssa.Value) bool
 }
 
 // RunLock applies the must-lockset discipline and records one obligation per function that
@@ -81,6 +84,19 @@ func (c *Ctx) RunLock(rule string, cfg LockCfg) *an.LockResult {
 			continue
 		}
 		spec.ExemptFuncs[an.FullName(f)] = why
+	}
+	spec.AltHeld = cfg.AltHeld
+	spec.SubGuard = cfg.SubGuard
+	if cfg.ElemHeldBy != nil {
+		spec.ElemHeldBy = map[string]int{}
+		for k, i := range cfg.ElemHeldBy {
+			f := byKey[k]
+			if f == nil {
+				c.R.Unknown("ANCHOR", "lock-elem-wrapper:"+k, "", "wrapper not found (stale table entry)")
+				continue
+			}
+			spec.ElemHeldBy[an.FullName(f)] = i
+		}
 	}
 	res := an.AnalyzeLock(spec, funcs)
 	// group findings per function
